@@ -18,12 +18,12 @@ def run(chk):
     if chk.quick:
         jobs = cfg_jobs(CFGS, 2, 6, 1, 'perm')
         jobs += cfg_jobs(['16000:8:1:1:8'], 2, 4, 1, 'learned')
-        jobs += [('blockbatch', ['codec-block', '--blocks', '10:1;12:2;18:1;26:1', '--seqs', 8])]
+        jobs += [('blockbatch', ['codec-block', '--blocks', '10:1;12:2;18:1;26:1;27:1;2:1', '--seqs', 8, '--dups', 12])]
         rankmax = 60
     else:
         jobs = cfg_jobs(CFGS + QUICK_CFGS, 5, 9, 1, 'perm')
         jobs += cfg_jobs(['16000:8:1:1:8', '3001:3:2:1:1', '40000:16:2:2:8'], 3, 6, 1, 'learned')
-        jobs += [('blockbatch', ['codec-block', '--blocks', ';'.join('%d:1' % k for k in range(a, a + 6)), '--seqs', 12]) for a in range(1, 49, 6)]
+        jobs += [('blockbatch', ['codec-block', '--blocks', ';'.join('%d:1' % k for k in range(a, a + 6)), '--seqs', 12, '--dups', 12]) for a in range(1, 49, 6)]
         rankmax = 110
     ok, st = cc.run_traces(chk, exe, jobs, rankmax, nproc=14, timeout=6000)
     chk.cov['evaluations'] = st['deliver']
